@@ -12,63 +12,96 @@ Local Open Scope string_scope.
 Local Open Scope list_scope.
 
 (* ------------------------------------------------------------------ part 1 *)
+(* sw = the sqlx log switches in force (logSQL, logSlowSQL, statement slower than the threshold): every
+   statement below holds for ALL of them. Faults carry their KIND (the driver's own error or one of
+   driver.ErrBadConn, sql.ErrConnDone, sql.ErrTxDone, context.Canceled, context.DeadlineExceeded);
+   database/sql's Begin retry on bad connections is part of the model (begin_calls). *)
 
 (* result = nil <=> the driver calls end with one successful Commit and contain no other Commit/Rollback *)
-Theorem c11_nil_iff_commit : forall adm f b,
-  fst (transact_ctx adm f b) = None <->
-  exists pre, snd (transact_ctx adm f b) = pre ++ [Commit true] /\ terminals pre = [].
+Theorem c11_nil_iff_commit : forall sw adm f b,
+  fst (transact_ctx sw adm f b) = None <->
+  exists pre, snd (transact_ctx sw adm f b) = pre ++ [Commit true] /\ terminals pre = [].
 Proof. exact nil_iff_commit. Qed.
 Print Assumptions c11_nil_iff_commit.
 
 (* a begun transaction gets exactly one of Commit/Rollback, and it is the last call; otherwise none *)
-Theorem c11_exactly_one_terminal : forall adm f b,
-  (In (Begin true) (snd (transact_ctx adm f b)) ->
+Theorem c11_exactly_one_terminal : forall sw adm f b,
+  (In (Begin true) (snd (transact_ctx sw adm f b)) ->
      exists t, is_terminal t = true /\
-       (exists pre, snd (transact_ctx adm f b) = pre ++ [t] /\ terminals pre = []) /\
-       terminals (snd (transact_ctx adm f b)) = [t]) /\
-  (~ In (Begin true) (snd (transact_ctx adm f b)) -> terminals (snd (transact_ctx adm f b)) = []).
+       (exists pre, snd (transact_ctx sw adm f b) = pre ++ [t] /\ terminals pre = []) /\
+       terminals (snd (transact_ctx sw adm f b)) = [t]) /\
+  (~ In (Begin true) (snd (transact_ctx sw adm f b)) -> terminals (snd (transact_ctx sw adm f b)) = []).
 Proof. exact exactly_one_terminal. Qed.
 Print Assumptions c11_exactly_one_terminal.
 
+(* the body is entered exactly once by a transaction that began (whatever database/sql retried before),
+   and never otherwise - no fault kind makes Transact run it again *)
+Theorem c11_body_runs_once : forall sw adm f b,
+  transact_ctx_runs adm f = (if existsb (call_eqb (Begin true)) (snd (transact_ctx sw adm f b)) then 1 else 0) /\
+  transact_ctx_runs adm f <= 1.
+Proof.
+  intros sw adm f b. split; [apply body_runs_once|].
+  unfold transact_ctx_runs, transact_runs, runs_on_conn. destruct adm, (f_begin f); lia.
+Qed.
+Print Assumptions c11_body_runs_once.
+
 (* commits iff the body returns nil, returning the commit's own error; otherwise exactly one Rollback *)
-Theorem c11_commit_iff_body_nil : forall f b, f_begin f = false ->
-  (fst (run_body b) = ONil <-> exists ok, In (Commit ok) (snd (transact f b))) /\
-  (fst (run_body b) = ONil -> fst (transact f b) = if f_commit f then Some ECommit else None) /\
-  (fst (run_body b) <> ONil -> exists ok, terminals (snd (transact f b)) = [Rollback ok]).
+Theorem c11_commit_iff_body_nil : forall sw f b, f_begin f = false ->
+  (fst (run_body sw b) = ONil <-> exists ok, In (Commit ok) (snd (transact sw f b))) /\
+  (fst (run_body sw b) = ONil -> fst (transact sw f b) = if f_commit f then Some (e_commit f) else None) /\
+  (fst (run_body sw b) <> ONil -> exists ok, terminals (snd (transact sw f b)) = [Rollback ok]).
 Proof. exact commit_iff_body_nil. Qed.
 Print Assumptions c11_commit_iff_body_nil.
 
 (* a panicking body: Rollback called exactly once (last), result non-nil and describing the panic *)
-Theorem c11_panic_rolls_back_and_reports : forall f b p, f_begin f = false -> fst (run_body b) = OPanic p ->
-  fst (transact f b) <> None /\
-  terminals (snd (transact f b)) = [Rollback (negb (f_rollback f))] /\
-  (exists pre, snd (transact f b) = pre ++ [Rollback (negb (f_rollback f))] /\ terminals pre = []) /\
-  fst (transact f b) = Some (if f_rollback f then EPanicJoin p ERollback else EPanic p).
+Theorem c11_panic_rolls_back_and_reports : forall sw f b p, f_begin f = false -> fst (run_body sw b) = OPanic p ->
+  fst (transact sw f b) <> None /\
+  terminals (snd (transact sw f b)) = [Rollback (negb (f_rollback f))] /\
+  (exists pre, snd (transact sw f b) = pre ++ [Rollback (negb (f_rollback f))] /\ terminals pre = []) /\
+  fst (transact sw f b) = Some (if f_rollback f then EPanicJoin p (e_rollback f) else EPanic p).
 Proof. exact panic_rolls_back_and_reports. Qed.
 Print Assumptions c11_panic_rolls_back_and_reports.
 
 (* a body error e comes back as e, or as e joined with the rollback's own error when the rollback failed *)
-Theorem c11_error_passthrough : forall f b e, f_begin f = false -> fst (run_body b) = OErr e ->
-  (fst (transact f b) = Some e \/ (f_rollback f = true /\ fst (transact f b) = Some (EJoin e ERollback))) /\
-  (f_rollback f = false -> fst (transact f b) = Some e) /\
-  terminals (snd (transact f b)) = [Rollback (negb (f_rollback f))].
+Theorem c11_error_passthrough : forall sw f b e, f_begin f = false -> fst (run_body sw b) = OErr e ->
+  (fst (transact sw f b) = Some e \/ (f_rollback f = true /\ fst (transact sw f b) = Some (EJoin e (e_rollback f)))) /\
+  (f_rollback f = false -> fst (transact sw f b) = Some e) /\
+  terminals (snd (transact sw f b)) = [Rollback (negb (f_rollback f))].
 Proof. exact error_passthrough. Qed.
 Print Assumptions c11_error_passthrough.
 
-Theorem c11_begin_error : forall f b, f_begin f = true -> transact f b = (Some EBegin, [Begin false]).
+(* Begin fails (after database/sql's retries, if the connection was bad): the begin error comes back,
+   only failed Begin attempts reached the driver, the body is never entered *)
+Theorem c11_begin_error : forall sw f b, f_begin f = true ->
+  transact sw f b = (Some (e_begin f), fst (begin_calls f)) /\
+  (forall c, In c (fst (begin_calls f)) -> c = Begin false) /\ transact_runs f = 0.
 Proof. exact transact_begin_error. Qed.
 Print Assumptions c11_begin_error.
 
+(* a failing Exec / prepared Exec / Query reaches the body as the driver's error under every switch
+   setting (stmt.go's guard only logs), so the body script behaves as the Spec presupposes *)
+Theorem c11_stmt_error_reaches_body : forall sw,
+  (forall op drv, stmt_result sw op drv = drv) /\ (forall b, run_body sw b = spec_body b).
+Proof. intro sw. split; [intros; apply stmt_result_transparent|apply run_body_spec]. Qed.
+Print Assumptions c11_stmt_error_reaches_body.
+
 (* the breaker either rejects the call before anything reaches the driver or is transparent *)
-Theorem c11_breaker_wrapping : forall f b,
-  transact_ctx false f b = (Some EUnavailable, []) /\ transact_ctx true f b = transact f b.
+Theorem c11_breaker_wrapping : forall sw f b,
+  transact_ctx sw false f b = (Some EUnavailable, []) /\ transact_ctx sw true f b = transact sw f b.
 Proof. intros; split; reflexivity. Qed.
 Print Assumptions c11_breaker_wrapping.
 
+(* sqlc.CachedConn.Transact(Ctx) = the sqlx conn's: same result, same driver calls, same body executions *)
+Theorem c11_wrapper_transparent : forall sw adm f b,
+  cached_transact_ctx sw adm f b = transact_ctx sw adm f b /\
+  cached_transact_ctx_runs adm f = transact_ctx_runs adm f.
+Proof. exact wrapper_transparent. Qed.
+Print Assumptions c11_wrapper_transparent.
+
 (* Model refines Spec: what the transcription does is allowed by the outcome table that spec_ok
-   evaluates on the observations *)
-Theorem c11_tx_refines_spec : forall f b,
-  tx_allowed f b (fst (transact f b)) (snd (transact f b)) None = true.
+   evaluates on the observations (which does not mention the switches) *)
+Theorem c11_tx_refines_spec : forall sw f b,
+  tx_allowed f b (fst (transact sw f b)) (snd (transact sw f b)) None (transact_runs f) = true.
 Proof. exact tx_refines. Qed.
 Print Assumptions c11_tx_refines_spec.
 
@@ -179,7 +212,7 @@ Print Assumptions c11_entry_points_strictness.
    ErrNotMatchDestination, a Scan error) => [Begin; Rollback] and that very error; a panic (the
    untagged-overflow observation) => [Begin; Rollback] and a non-nil error *)
 Theorem c11_query_in_transaction : forall st,
-  transact (mkfaults false false false) (body_of_query st) =
+  transact default_switches no_faults (body_of_query st) =
   match st with
   | Ok _ => (None, [Begin true; Commit true])
   | Err n => (Some (EBody n), [Begin true; Rollback true])
@@ -190,14 +223,23 @@ Print Assumptions c11_query_in_transaction.
 
 (* ------------------------------------------------------------------ non-vacuity *)
 Example c11_tx_examples :
+  let sw := mkswitches false false true in
   (* clean body, no faults: nil and [Begin; Exec 0; Commit] *)
-  transact (mkfaults false false false) (mkbody [mkstmt false RReturn] ONil) = (None, [Begin true; Exec 0 true; Commit true]) /\
-  (* panicking body with a failing rollback *)
-  transact (mkfaults false false true) (mkbody [mkstmt true RIgnore] (OPanic 9)) =
-    (Some (EPanicJoin 9 ERollback), [Begin true; Exec 0 false; Rollback false]) /\
-  (* failing statement returned by the body *)
-  transact (mkfaults false true false) (mkbody [mkstmt false RReturn; mkstmt true RReturn] ONil) =
-    (Some (EExec 1), [Begin true; Exec 0 true; Exec 1 false; Rollback true]).
+  transact sw no_faults (mkbody [mkstmt SExec FNone RReturn] ONil) = (None, [Begin true; Exec 0 true; Commit true]) /\
+  (* panicking body with a rollback failing on a bad connection *)
+  transact sw (mkfaults FNone 0 FNone (FKind KBadConn)) (mkbody [mkstmt SQuery FGen RIgnore] (OPanic 9)) =
+    (Some (EPanicJoin 9 (EKind KBadConn)), [Begin true; Exec 0 false; Rollback false]) /\
+  (* a prepared Exec failing with sql.ErrTxDone, returned by the body *)
+  transact sw (mkfaults FNone 0 FGen FNone) (mkbody [mkstmt SExec FNone RReturn; mkstmt SPrepExec (FKind KTxDone) RReturn] ONil) =
+    (Some (EKind KTxDone), [Begin true; Exec 0 true; Exec 1 false; Rollback true]) /\
+  (* a connection that is bad twice and then fine: two failed attempts, then an ordinary transaction *)
+  transact sw (mkfaults (FKind KBadConn) 2 FNone FNone) (mkbody [] ONil) =
+    (None, [Begin false; Begin false; Begin true; Commit true]) /\
+  (* persistently bad: three attempts, driver.ErrBadConn comes back, nothing else *)
+  transact sw (mkfaults (FKind KBadConn) 5 FNone FNone) (mkbody [mkstmt SExec FNone RReturn] ONil) =
+    (Some (EKind KBadConn), [Begin false; Begin false; Begin false]) /\
+  (* a cancelled context at Begin is not retried *)
+  transact sw (mkfaults (FKind KCanceled) 1 FNone FNone) (mkbody [] ONil) = (Some (EKind KCanceled), [Begin false]).
 Proof. repeat split. Qed.
 
 Definition ex_fs : list field :=
